@@ -176,6 +176,22 @@ TRIALS = [
      lambda c: c["b"].create_data_frame("n", "t", col_names=["a", "a"], col_dtypes=[int, int]), lambda c: c["b"].create_data_frame("n", "t", col_dict={"a": int})),
     ("Block.create_data_frame(data of another schema)", "mismatching shape",
      lambda c: c["b"].create_data_frame("n", "t", col_dict={"a": int}, data=[(1, 2, 3)]), lambda c: c["b"].create_data_frame("n", "t", col_dict={"a": int})),
+    ("Block.create_data_frame(value out of the column's range)", "value out of range",
+     lambda c: c["b"].create_data_frame("n", "t", col_dict={"a": np.uint8}, data=[(300,)]), lambda c: c["b"].create_data_frame("n", "t", col_dict={"a": int})),
+    ("Block.create_data_frame(integer beyond int64)", "value out of range",
+     lambda c: c["b"].create_data_frame("n", "t", col_dict={"a": int}, data=[(2 ** 70,)]), lambda c: c["b"].create_data_frame("n", "t", col_dict={"a": int})),
+    ("Block.create_data_frame(col_dict, data=[])", "out-of-range index",
+     lambda c: c["b"].create_data_frame("n", "t", col_dict={"a": int}, data=[]), lambda c: c["b"].create_data_frame("n", "t", col_dict={"a": int})),
+    ("Block.create_data_frame(data as a dict of columns)", "unknown key",
+     lambda c: c["b"].create_data_frame("n", "t", col_dict={"a": int}, data={"a": [1, 2]}), lambda c: c["b"].create_data_frame("n", "t", col_dict={"a": int})),
+    ("DataFrame.append_rows(integer beyond int64)", "value out of range", lambda c: c["df"].append_rows([(2 ** 70, 1.0)]), None),
+    ("DataFrame.write_cell(integer beyond int64)", "value out of range", lambda c: c["df"].write_cell(2 ** 70, position=(0, 0)), None),
+    ("DataFrame.write_rows(integer beyond int64)", "value out of range", lambda c: c["df"].write_rows([(2 ** 70, 1.0)], [0]), None),
+    ("DataFrame.write_column(integer beyond int64)", "value out of range", lambda c: c["df"].write_column([2 ** 70, 1], name="x"), None),
+    ("DataFrame.append_column(integer beyond int64)", "value out of range", lambda c: c["df"].append_column([2 ** 70, 1], "z", datatype=int), None),
+    ("Section.create_property(integer beyond int64)", "value out of range", lambda c: c["s"].create_property("big", [2 ** 70]),
+     lambda c: c["s"].create_property("big", [1])),
+    ("Property.values = [integer beyond int64]", "value out of range", lambda c: setattr(c["s"].props["pr"], "values", [2 ** 70]), None),
     ("DataFrame.append_rows(row of 3 values)", "mismatching shape", lambda c: c["df"].append_rows([(1, 2.0, 3)]), None),
     ("DataFrame.append_column(wrong length)", "mismatching shape", lambda c: c["df"].append_column([1], "z", datatype=int), None),
     ("DataFrame.write_cell(row 9)", "out-of-range index", lambda c: c["df"].write_cell(1, position=(9, 0)), None),
